@@ -172,7 +172,7 @@ fn run(ctx: &mut Ctx) {
     }
     // the generic library of C07 (valid by construction; instantiations at nested generic types): IR monitors,
     // and a compiler crash on one of these programs is a violation here (a stage output was not produced)
-    let nlib = tier.pick(48u64, 1_600u64) / ctx.nshards as u64 + 1;
+    let nlib = tier.pickn(48u64, 1_600u64) / ctx.nshards as u64 + 1;
     for i in 0..nlib {
         let mut rng = Rng::keyed(seed, "c03-lib", ctx.shard as u64, i);
         let (prog, _) = crate::props::c07::build(&mut rng, 12);
@@ -255,7 +255,7 @@ fn run(ctx: &mut Ctx) {
         }
     }
     // generated: IR monitor + injections
-    let n = tier.pick(160u64, 12_000u64) / ctx.nshards as u64 + 1;
+    let n = tier.pickn(160u64, 12_000u64) / ctx.nshards as u64 + 1;
     let max_sites = tier.pick(6usize, 40usize);
     for i in 0..n {
         let mut rng = Rng::keyed(seed, "c03-gen", ctx.shard as u64, i);
